@@ -16,7 +16,7 @@ TOL = 1e-9
 
 def plan(tier):
     n = 160 if tier == 'quick' else 4000
-    return dict(n_cases=n, shards=16, min_nontrivial=n // 3,
+    return dict(sanitize={'extensions': ['compmech.panel.models.plate_clt_donnell_bardell_num', 'compmech.panel.models.cpanel_clt_donnell_bardell_num'], 'n_cases': 48}, n_cases=n, shards=16, min_nontrivial=n // 3,
                 min_tags={'obj:panel': n // 3, 'obj:assembly': n // 8, 'model:cpanel': n // 10, 'clause:closed_path': n // 10,
                           'table:per_point': n // 20},
                 watchdog_s=1800 if tier == 'quick' else 10000,
